@@ -1233,6 +1233,7 @@ package tree
 //@     invariant [inv5] INV5()
 //@     invariant [own] OWN()
 //@     invariant [inve] INVE()
+//@   return [a_node_that_keeps_its_place_is_never_left_with_exactly_two_neighbours] result == nil ==> len(internal.neigh) != 2
 //@   return [merged_branch_carries_the_summed_length_when_either_is_present] e != nil ==> e.length == (length1 != -1.0 || length2 != -1.0 ? max(0.0, length1) + max(0.0, length2) : -1.0)
 //@   return [merged_branch_support_is_the_larger_one_only_between_two_inner_nodes] e != nil ==> e.support == ((sup1 != -1.0 || sup2 != -1.0) && deg(n1) > 1 && deg(n2) > 1 ? max(sup1, sup2) : -1.0)
 //@   return [when_the_suppressed_node_was_the_root_the_new_root_is_the_upper_end_of_the_merging_branch] e != nil && !dir1 && dir2 ==> e.left == t.root
@@ -1721,3 +1722,9 @@ package tree
 //@   call (*tree.Node).RotateNeighbors [the_node_of_this_iteration] a0 == n
 //@   loop 1
 //@     step [every_node_is_rotated_exactly_once] ghost(ncalls_RotateNeighbors) == atHead(ghost(ncalls_RotateNeighbors)) + 1
+
+// IncrementSupport (property C10): an absent support counts as zero, then the given amount is added - whatever it is
+//@ func (*tree.Edge).IncrementSupport
+//@   requires e != nil
+//@   assigns e.support
+//@   ensures [absent_counts_as_zero_then_the_amount_is_added] e.support == (old(e.support) == -1.0 ? 0.0 : old(e.support)) + support
